@@ -8,6 +8,7 @@ import (
 	"sort"
 	"strconv"
 	"strings"
+	"syscall"
 	"testing"
 	"time"
 )
@@ -94,6 +95,21 @@ func KnownKey(prop, key string) bool {
 	return false
 }
 
+// RealNow returns the real wall clock in nanoseconds even inside a testing/synctest bubble (where
+// time.Now() is the fake clock): it asks the kernel directly.
+func RealNow() int64 {
+	var tv syscall.Timeval
+	syscall.Gettimeofday(&tv)
+	return int64(tv.Sec)*1e9 + int64(tv.Usec)*1e3
+}
+
+var hardStopAt int64
+
+// PastHardStop reports whether the worker's exploration budget (plus a grace period) is used up.
+// Engines with long runs poll it in their step loop and end the current run early (counted in the
+// stats as run_cut_by_budget); it never turns into a verdict.
+func PastHardStop() bool { return hardStopAt != 0 && RealNow() > hardStopAt }
+
 func envInt(name string, def int) int {
 	if s := os.Getenv(name); s != "" {
 		if v, err := strconv.Atoi(s); err == nil {
@@ -130,6 +146,9 @@ func WorkerMain(t *testing.T, e Engine) {
 	maxRuns := envInt("VERIF_MAXRUNS", 1<<30)
 	dump := os.Getenv("VERIF_DUMPLOG") != ""
 	start := time.Now()
+	if os.Getenv("VERIF_DUMPLOG") == "" { // determinism runs must never be cut short
+		hardStopAt = RealNow() + int64(budget) + int64(45*time.Second)
+	}
 	sum := &WorkerSummary{Engine: e.Name(), Property: prop, Worker: w, Stats: map[string]int64{}}
 	nontriv := map[string]bool{}
 	states := map[string]bool{}
